@@ -277,7 +277,6 @@ for _o in ORDERS:
 # ("the body is the layout of the components at that offset under that key" / "the reader returns what the layout holds").
 # Those contracts are proved under C03 / C01 and are obligations of this property too.
 from pyvc.harness import reuse as _reuse
-from contracts import C01 as _C01x, C03 as _C03x  # noqa: E402,F401
 _reuse("C03/dir_to_binary", "C02/body.directory=layout(offsets-advance-by-stored-length)")
 _reuse("C03/to_binary", "C02/body.to_binary=layout")
 _reuse("C01/from_binary(layout(f))=f[mac-check-on]", "C02/body.from_binary(layout(f))=f")
